@@ -51,12 +51,17 @@ VARIABLES
 vars == <<tid, ed, cmp, nsub, seed, sub, pc, frames, phase, reg, out, done, bits, pos, err>>
 
 (* consume form: everything about a case is read from the message octets themselves *)
-Hdrs == IF Mode = "consume" THEN [i \in 1..Len(Cases) |-> ParseHeader(Cases[i].msg)] ELSE <<>>
-Templates == [i \in 1..Len(Cases) |-> IF Mode = "consume" THEN Hdrs[i].ids ELSE Cases[i].ids]
-Oct == Cases[tid].msg
+(* computed once at start-up and kept in TLC registers (see the note in Tables) *)
+ASSUME TLCSet(13, IF Mode = "consume" THEN [i \in 1..Len(Cases) |-> ParseHeader(Cases[i].msg)] ELSE <<>>)
+Hdrs == TLCGet(13)
+ASSUME TLCSet(14, [i \in 1..Len(Cases) |-> IF Mode = "consume" THEN Hdrs[i].ids ELSE Cases[i].ids])
+Templates == TLCGet(14)
+ASSUME TLCSet(16, IF Mode = "consume" THEN [i \in 1..Len(Cases) |-> Cases[i].msg] ELSE <<>>)
+Oct == TLCGet(16)[tid]
 DataBit0 == 8 * Hdrs[tid].data0          \* bit offset of the first data bit inside the message
 
-Prog == [t \in 1..Len(Templates) |-> Build(Templates[t])]
+ASSUME TLCSet(15, [t \in 1..Len(Templates) |-> Build(Templates[t])])
+Prog == TLCGet(15)
 P == Prog[tid]
 Ins == P[pc]
 AtEnd == pc > Len(P)
@@ -142,23 +147,25 @@ StrColumnBits(w, vs) ==
 ReadNumColumn(t, w, p, codeRecheck) ==
     LET mn == BitsAt(Oct, DataBit0 + p, w)
         d == BitsToNat(BitsAt(Oct, DataBit0 + p + w, 6))
-        mnMissing == w > 1 /\ IsAllOnes(mn)
+        mnMissing == t # "ref" /\ w > 1 /\ IsAllOnes(mn)
         one(i) ==
             LET df == BitsAt(Oct, DataBit0 + p + w + 6 + (i - 1) * d, d)
                 dm == (d > 1 /\ IsAllOnes(df)) \/ (d = 1 /\ df = <<1>>)
-                sum == BAdd(mn, ZeroExtend(df, w))
-                raw == IF dm THEN Ones(w) ELSE Tail(sum)
-            IN [miss |-> dm \/ (codeRecheck /\ w > 1 /\ IsAllOnes(raw)), raw |-> raw, ovf |-> ~dm /\ sum[1] = 1]
+                W == IF d > w THEN d ELSE w                      \* a difference may be written wider than the field
+                sum == BAdd(ZeroExtend(mn, W), ZeroExtend(df, W))   \* W + 1 bits
+                raw == IF dm THEN Ones(w) ELSE LowBits(sum, w)
+            IN [miss |-> dm \/ (codeRecheck /\ w > 1 /\ IsAllOnes(raw)), raw |-> raw,
+                ovf |-> ~dm /\ ~IsAllZeros(SubSeq(sum, 1, W + 1 - w))]
     IN IF d = 0 \/ mnMissing
-       THEN [vs |-> [i \in 1..nsub |-> [miss |-> mnMissing, raw |-> mn]], n |-> w + 6, ok |-> d = 0]
+       THEN [vs |-> [i \in 1..nsub |-> [miss |-> mnMissing, raw |-> mn]], n |-> w + 6, ok |-> d = 0, d |-> d]
        ELSE [vs |-> [i \in 1..nsub |-> [miss |-> one(i).miss, raw |-> one(i).raw]], n |-> w + 6 + nsub * d,
-             ok |-> d <= w /\ \A i \in 1..nsub : ~one(i).ovf]
+             ok |-> \A i \in 1..nsub : ~one(i).ovf, d |-> d]
 ReadStrColumn(w, p) ==
     LET mn == BitsAt(Oct, DataBit0 + p, w)
         d == BitsToNat(BitsAt(Oct, DataBit0 + p + w, 6))       \* octets
-    IN IF d = 0 THEN [vs |-> [i \in 1..nsub |-> [miss |-> IsAllOnes(mn), raw |-> mn]], n |-> w + 6, ok |-> TRUE]
+    IN IF d = 0 THEN [vs |-> [i \in 1..nsub |-> [miss |-> IsAllOnes(mn), raw |-> mn]], n |-> w + 6, ok |-> TRUE, d |-> 0]
        ELSE [vs |-> [i \in 1..nsub |-> LET r == BitsAt(Oct, DataBit0 + p + w + 6 + (i - 1) * 8 * d, 8 * d) IN [miss |-> IsAllOnes(r), raw |-> r]],
-             n |-> w + 6 + nsub * 8 * d, ok |-> IsAllZeros(mn) /\ 8 * d = w]
+             n |-> w + 6 + nsub * 8 * d, ok |-> IsAllZeros(mn) /\ 8 * d = w, d |-> d]
 
 (***************************************************************************)
 (* One field: the set of possible [vs, fb, n, ok] for type t, width w.     *)
@@ -171,16 +178,26 @@ Field(t, w, forced) ==
             vs == [i \in 1..NSubCols |->
                      LET raw == IF forced # <<>> THEN forced
                                 ELSE Pattern(t, w, idx, IF cmp THEN i ELSE sub) IN Val(t, w, raw)]
-        IN IF ~cmp THEN {[vs |-> vs, fb |-> vs[1].raw, n |-> w, ok |-> TRUE]}
-           ELSE IF t = "str" THEN {[vs |-> vs, fb |-> StrColumnBits(w, vs), n |-> Len(StrColumnBits(w, vs)), ok |-> TRUE]}
-           ELSE {[vs |-> vs, fb |-> NumColumnBits(w, vs, d), n |-> Len(NumColumnBits(w, vs, d)), ok |-> TRUE] : d \in NumColumnD(vs)}
+        IN IF ~cmp THEN {[vs |-> vs, fb |-> vs[1].raw, n |-> w, ok |-> TRUE, d |-> -1]}
+           ELSE IF t = "str" THEN {[vs |-> vs, fb |-> StrColumnBits(w, vs), n |-> Len(StrColumnBits(w, vs)), ok |-> TRUE,
+                                    d |-> IF AllMissing(vs) \/ AllEqual(vs) THEN 0 ELSE w \div 8]}
+           ELSE {[vs |-> vs, fb |-> NumColumnBits(w, vs, d), n |-> Len(NumColumnBits(w, vs, d)), ok |-> TRUE, d |-> d] : d \in NumColumnD(vs)}
     ELSE
-        IF ~cmp THEN LET raw == BitsAt(Oct, DataBit0 + pos, w) IN {[vs |-> <<Val(t, w, raw)>>, fb |-> <<>>, n |-> w, ok |-> TRUE]}
-        ELSE IF t = "str" THEN LET c == ReadStrColumn(w, pos) IN {[vs |-> c.vs, fb |-> <<>>, n |-> c.n, ok |-> c.ok]}
-        ELSE LET c == ReadNumColumn(t, w, pos, t = "code") IN {[vs |-> c.vs, fb |-> <<>>, n |-> c.n, ok |-> c.ok]}
+        LET avail(n) == DataBit0 + pos + n <= 8 * Len(Oct)
+            short == {[vs |-> [i \in 1..NSubCols |-> [miss |-> TRUE, raw |-> <<>>]], fb |-> <<>>, n |-> 0, ok |-> FALSE, d |-> -1]}
+        IN
+        IF ~cmp THEN (IF ~avail(w) THEN short
+                      ELSE LET raw == BitsAt(Oct, DataBit0 + pos, w) IN {[vs |-> <<Val(t, w, raw)>>, fb |-> <<>>, n |-> w, ok |-> TRUE, d |-> -1]})
+        ELSE IF ~avail(w + 6) THEN short
+        ELSE LET dd == BitsToNat(BitsAt(Oct, DataBit0 + pos + w, 6))
+                 mnMiss == t \notin {"str", "ref"} /\ w > 1 /\ IsAllOnes(BitsAt(Oct, DataBit0 + pos, w))
+                 total == w + 6 + (IF mnMiss THEN 0 ELSE nsub * dd * (IF t = "str" THEN 8 ELSE 1))
+             IN IF ~avail(total) THEN short
+                ELSE IF t = "str" THEN LET c == ReadStrColumn(w, pos) IN {[vs |-> c.vs, fb |-> <<>>, n |-> c.n, ok |-> c.ok, d |-> c.d]}
+                ELSE LET c == ReadNumColumn(t, w, pos, t = "code") IN {[vs |-> c.vs, fb |-> <<>>, n |-> c.n, ok |-> c.ok, d |-> c.d]}
 
 Entry(lab, t, w, sc, ref, link, plain, vs) ==
-    [lab |-> lab, t |-> t, w |-> w, sc |-> sc, ref |-> ref, link |-> link, plain |-> plain, v |-> vs]
+    [lab |-> lab, t |-> t, w |-> w, sc |-> sc, ref |-> ref, link |-> link, plain |-> plain, v |-> vs, d |-> -1]
 
 (***************************************************************************)
 (* Control: moving to the next instruction, closing replication frames     *)
@@ -237,7 +254,9 @@ Member == Running /\ Ins.k # "F"
 Fail(e) == /\ err' = e /\ UNCHANGED <<tid, ed, cmp, nsub, seed, sub, pc, frames, phase, reg, out, done, bits, pos>>
 
 PutField(e, f, r, nextpc) ==
-    /\ out' = Append(out, e)
+    IF ~f.ok THEN Fail("MalformedData")
+    ELSE
+    /\ out' = Append(out, [e EXCEPT !.d = f.d])
     /\ bits' = IF Mode = "produce" THEN bits \o f.fb ELSE bits
     /\ pos' = pos + f.n
     /\ reg' = r
@@ -281,7 +300,8 @@ Assoc ==
     /\ LET r1 == Pre(reg, Ins, out) IN
        IF r1.bmst = "ERR" THEN Fail("PyBufrKitError")
        ELSE \E f \in Field("code", AssocWidth(reg), <<>>) :
-            /\ out' = Append(out, Entry(Lab5("A", Ins.id), "code", AssocWidth(reg), 0, WZero, 0, FALSE, f.vs))
+            IF ~f.ok THEN Fail("MalformedData") ELSE
+            /\ out' = Append(out, [Entry(Lab5("A", Ins.id), "code", AssocWidth(reg), 0, WZero, 0, FALSE, f.vs) EXCEPT !.d = f.d])
             /\ bits' = IF Mode = "produce" THEN bits \o f.fb ELSE bits
             /\ pos' = pos + f.n
             /\ reg' = r1
@@ -375,8 +395,9 @@ Delayed ==
                         e == Entry(IdStr(fid), IF Kind(fid) = "code" THEN "code" ELSE "num", w, BScale(fid),
                                    FromInt(BRef(fid)), 0, TRUE, f.vs)
                         body == pc + 2
-                    IN IF f.vs[1].miss \/ (cmp /\ ~AllEqual(f.vs)) THEN Fail("PyBufrKitError")
-                       ELSE /\ out' = Append(out, e)
+                    IN IF ~f.ok THEN Fail("MalformedData")
+                       ELSE IF f.vs[1].miss \/ (cmp /\ ~AllEqual(f.vs)) THEN Fail("PyBufrKitError")
+                       ELSE /\ out' = Append(out, [e EXCEPT !.d = f.d])
                             /\ bits' = IF Mode = "produce" THEN bits \o f.fb ELSE bits
                             /\ pos' = pos + f.n
                             /\ reg' = QaStep(r1, fid)
